@@ -1528,6 +1528,21 @@ def np_cumop(which):
     return f
 
 
+LOG10 = z3.Function("log10", z3.RealSort(), z3.RealSort())
+POW10 = z3.Function("pow10", z3.RealSort(), z3.RealSort())
+
+
+def np_logspace(interp, args, kw):
+    """np.logspace(a, b, n)[j] = 10 ** linspace(a, b, n)[j] (axiom); 10**x is the uninterpreted pow10."""
+    lin = np_linspace(interp, args, kw)
+    used(interp, "logspace")
+    n, get, _ = seq_view_frozen(interp, lin)
+    return interp.array_from_fn(lambda j: POW10(get(j)), n, "real", "logspace")
+
+
+axiom("logspace", "np.logspace(a,b,n) = 10**np.linspace(a,b,n); pow10(log10(x)) = x for x > 0 is instantiated where used")
+
+
 def np_size(interp, args, kw):
     return as_len(interp, args[0])
 
@@ -1658,6 +1673,9 @@ def install(interp):
     m[np.amax] = np_extreme("max")
     m[np.sort] = np_sort
     m[np.arange] = np_arange
+    m[np.logspace] = np_logspace
+    m[np.log10] = unary_real(LOG10, np.log10)
+    m[math.log10] = unary_real(LOG10, math.log10)
     m[np.where] = np_where3
     m[np.argsort] = np_argsort
     m[np.cumprod] = np_cumop("prod")
